@@ -28,6 +28,11 @@ static inline bool vers_ok(const StageVersion* v) {
 /* a subsystem's stage is a legal stage, every stage version is >= 1 ("0 is never used") and
    < 2^62 (ASSUMPTION: fewer than 2^62 invalidations) */
 #define SUB_WF(s) (STAGE_OK((s)->currentStage) && vers_ok((s)->stageVersions))
+/* the same without a function call (loop invariants must be side-effect free) */
+_Static_assert(Stage_NValid == 11, "VERS_OK_ALL enumerates 11 stages");
+#define VERS_OK_ALL(v) (VER_OK((v)[0]) && VER_OK((v)[1]) && VER_OK((v)[2]) && VER_OK((v)[3]) && VER_OK((v)[4]) && VER_OK((v)[5]) && \
+                        VER_OK((v)[6]) && VER_OK((v)[7]) && VER_OK((v)[8]) && VER_OK((v)[9]) && VER_OK((v)[10]))
+#define SUB_WF_NOCALL(s) (STAGE_OK((s)->currentStage) && VERS_OK_ALL((s)->stageVersions))
 
 /* cache entry type invariant: StateImpl::allocateCacheEntry's range checks + isReasonable() */
 #define CE_WF(ce) (Stage_Topology <= (ce)->m_allocationStage && (ce)->m_allocationStage <= Stage_Instance && \
@@ -266,7 +271,7 @@ ENSURES_SYS_INVALIDATED(self, stg);
 #define LOOP_CONTRACT_INVALIDATE_ALL(self, g) \
   __CPROVER_assigns(i, SUB_ASSIGNS((self)->g_sub)) \
   __CPROVER_loop_invariant(0 <= i && i <= (self)->subsystems_size && 0 <= (self)->g_sub->cacheInfo_size && 0 <= (self)->g_sub->discreteInfo_size) \
-  __CPROVER_loop_invariant(i <= ghost_k ==> (SUB_WF((self)->g_sub) && (self)->g_sub->currentStage == LE((self)->g_sub->currentStage) && \
+  __CPROVER_loop_invariant(i <= ghost_k ==> (SUB_WF_NOCALL((self)->g_sub) && (self)->g_sub->currentStage == LE((self)->g_sub->currentStage) && \
         (self)->g_sub->stageVersions[ghost_j] == LE((self)->g_sub->stageVersions[ghost_j]) && \
         (self)->g_sub->cacheInfo_size == LE((self)->g_sub->cacheInfo_size) && (self)->g_sub->discreteInfo_size == LE((self)->g_sub->discreteInfo_size))) \
   __CPROVER_loop_invariant(i > ghost_k ==> ((self)->g_sub->currentStage == MINI(LE((self)->g_sub->currentStage), (g) - 1) && \
